@@ -322,7 +322,10 @@ def apply_fault(fmt, text, fault):
         for k in ks:
             del lines[k]
     elif kind == "dup":
-        for k in sorted({f % len(lines) for f in fault[1]}, reverse=True):
+        ks = sorted({f % len(lines) for f in fault[1]}, reverse=True)
+        if len(ks) > 1 and len(set(ks) & uncounted_lines(fmt, lines)) > 1:
+            return None      # two duplicated lines of an uncounted block can add up to one complete extra record: undetectable as well
+        for k in ks:
             lines.insert(k, lines[k])
     elif kind == "renumber":
         # the serial number of one ATOM / BOND record becomes a neighbouring, equally valid number (5 -> 4 or 6): either the reader
